@@ -87,6 +87,7 @@ func newLintCommand$2$1 returns (err)
 func newLintCommand returns (cmd)
   props C16 C09 C08
   ensures @name [C16] cmd != nil && cmd.Name == "lint"
+  ensures @short-forms [C16] BoolAlias(cmd.Flags[0], "s")
   ensures @flags [C16 C09] len(cmd.Flags) == 1 && CmdBoolFlag(cmd.Flags[0], "silent")
 
 @*/
